@@ -277,7 +277,16 @@ impl Model for M {
             s.mon.outstanding = None;
         }
         if let Ev::Hk(_) = ev {
-            if let Some((_, at)) = s.mon.outstanding {
+            if let Some((ol, at)) = s.mon.outstanding {
+                // (vii-b) an attempt whose 4 s have run out is abandoned *before* the pass deals with the links: a
+                // link that this pass reconnects is then no longer "the link awaiting REG2" and is re-registered
+                // with REG2 (only a still pending attempt is kept alive by a REG1 re-send)
+                if now - at >= 4000 && ol < self.n && s.w.connections[ol].reconnection.last_reconnect_attempt_ms == now && reg2_per_link[ol] == 0 && s.w.conn_io.contains_key(&s.w.connections[ol].conn_id) {
+                    return Err(Fail::new(
+                        "expired-reg1-kept-alive-by-the-reconnect",
+                        ctx(&format!("the REG1 sent on link {ol} at +{} ms had run out, the pass reconnected that link and sent it {} instead of REG2", at - T0, if reg1_links.contains(&ol) { "REG1 again" } else { "nothing" })),
+                    ));
+                }
                 if now - at >= 4000 {
                     s.mon.outstanding = None;
                     s.mon.abandoned_once = true;
